@@ -147,6 +147,8 @@ func c03GenGL(t *rapid.T) c03GLCase {
 		c.Q = c.P
 	case 1: // inverse: -([a]B + T[j]) = [L-a]B + T[-j]
 		c.Q = h.PointSpec{A: h.Hex(ref.SEncode(ref.SNeg(ref.FromLE(c.P.A)))), J: (8 - c.P.J%8) % 8, Cls: "neg-of-p"}
+	case 3: // -p + T[4] = (x, -y): same x-coordinate, and p + T[4] = (-x, -y)
+		c.Q = h.PointSpec{A: h.Hex(ref.SEncode(ref.SNeg(ref.FromLE(c.P.A)))), J: (12 - c.P.J%8) % 8, Cls: "mirror-of-p"}
 	case 2: // same prime-order part, different torsion
 		c.Q = h.PointSpec{A: c.P.A, J: rapid.IntRange(0, 7).Draw(t, "qj"), Cls: "p+torsion"}
 	default:
